@@ -1131,7 +1131,7 @@ def detect_recursion(func: Callable[..., BaseMarker]) -> Callable[..., BaseMarke
 def intersection(*markers: BaseMarker) -> BaseMarker:
     # Sometimes normalization makes it more complicated instead of simple
     # -> choose candidate with the least complexity
-    unnormalized: BaseMarker = MultiMarker(*markers)
+    unnormalized: BaseMarker = MultiMarker(*(m for m in markers if not m.is_any()))
     while (
         isinstance(unnormalized, (MultiMarker, MarkerUnion))
         and len(unnormalized.markers) == 1
@@ -1158,7 +1158,7 @@ def intersection(*markers: BaseMarker) -> BaseMarker:
 def union(*markers: BaseMarker) -> BaseMarker:
     # Sometimes normalization makes it more complicated instead of simple
     # -> choose candidate with the least complexity
-    unnormalized: BaseMarker = MarkerUnion(*markers)
+    unnormalized: BaseMarker = MarkerUnion(*(m for m in markers if not m.is_empty()))
     while (
         isinstance(unnormalized, (MultiMarker, MarkerUnion))
         and len(unnormalized.markers) == 1
